@@ -281,7 +281,7 @@ EXT = {
            ' Third round: the caller overwrites its similarity matrix after construction.',
     "C10": " Added: partial correlation (cofactors of the covariance matrix), surrogate test matrices (mean product, binned MI), "
            "translation invariance under a 2^20 offset, all climate classes of a case share one ClimateData."
-           ' Third round: Gaussian conditional information transfer (ITY / MIT, one or two conditioning series, both lag modes) against cofactor partial correlations (Val_C10it); relations of the climate mutual-information matrix (symmetry, reordering, equal series).',
+           ' Third round: Gaussian conditional information transfer (ITY / MIT, one or two conditioning series, both lag modes) against cofactor partial correlations (Val_C10it); relations of the climate mutual-information matrix (symmetry, reordering, equal series); aequi-quantile binned mutual information of CouplingAnalysis (definition and the normalisation the library is pinned to).',
     "C11": " Added: CoupledClimateNetwork wrappers under the same clauses; link-weighted path lengths, closeness, efficiency, strength."
            ' Third round: all 15 link-attribute signatures driven with link lengths (strengths, average cross closeness, global efficiency).',
     "C12": " Added: Stable (distances unchanged after network analysis), irrigation weights, total / mean weight consistency, "
